@@ -147,7 +147,11 @@ impl Runner {
                     self.w.after_input(n, c);
                 }
             }
-            "run" => self.run_for(s["us"].as_u64().unwrap_or(100_000)),
+            "run" => match s["until_us"].as_u64() {
+                // absolute virtual time (C14: arrivals placed around a token's expiry instant)
+                Some(abs) => self.run_for(abs.saturating_sub(self.w.now_us)),
+                None => self.run_for(s["us"].as_u64().unwrap_or(100_000)),
+            },
             "run_until" => {
                 let what = s["what"].as_str().unwrap_or("connected").to_string();
                 let ok = self.run_until(&what, s["max_us"].as_u64().unwrap_or(10_000_000));
@@ -286,6 +290,8 @@ impl Runner {
                 let dst = self.w.nodes[to].addr;
                 self.w.inject(src, dst, data, "raw", u64::MAX, 0);
             }
+            "token" => crate::tokens::step(self, s),
+            "retry_pkt" => crate::tokens::retry_pkt(self, s),
             "splice" => self.splice(s),
             "vn" => self.version_negotiation(s),
             "mitm" => self.install_mitm(s),
